@@ -436,6 +436,9 @@ class SvgScene:
             r1 = length("r", "50%", "r")
             c0 = (length("fx", g.get("cx", "50%"), "x"), length("fy", g.get("cy", "50%"), "y"))
             r0 = length("fr", "0", "r")
+            if r1 == 0:
+                # SVG 1.1 §13.2.3: r = 0 paints the area with the colour and opacity of the last stop
+                return premul(stops[-1][1]) if stops else CLEAR
             t = radial_param(c0, r0, c1, r1, gp)
             if t is None:
                 return CLEAR
@@ -648,7 +651,7 @@ class ColrScene:
 
 # ------------------------------------------------------------------ comparison driver
 
-def compare_scenes(a, b, map_ab, points, delta_a, delta_b, tol=0.08, slope_tol=0.05):
+def compare_scenes(a, b, map_ab, points, delta_a, delta_b, tol=0.08, slope_tol=0.05, near_a=None, near_b=None):
     """Compare colour of scene `a` at p with scene `b` at map_ab(p), skipping points whose inside-signature
     or colour is unstable within delta (edges, steep gradients).  Returns (n_compared, n_skipped, mismatches)."""
     compared, skipped, bad = 0, 0, []
@@ -673,12 +676,15 @@ def compare_scenes(a, b, map_ab, points, delta_a, delta_b, tol=0.08, slope_tol=0
             # geometry (edges, gradient bands) may legitimately sit up to delta away: a feature thinner than the probe spacing
             # above is not seen by the stability test, so before calling it a mismatch look for the expected colour within
             # delta in b, or the actual colour within delta in a
-            near = [(i * delta_b / 3.0, j * delta_b / 3.0) for i in range(-3, 4) for j in range(-3, 4) if (i, j) != (0, 0)]
+            # (radius: coordinate rounding, NOT the full edge margin — a gradient that is off by more than rounding stays a mismatch)
+            rb = min(delta_b, near_b) if near_b else 0.35 * delta_b
+            ra = min(delta_a, near_a) if near_a else 0.35 * delta_a
+            near = [(i * rb / 3.0, j * rb / 3.0) for i in range(-3, 4) for j in range(-3, 4) if (i, j) != (0, 0)]
             if any(max(abs(x - y) for x, y in zip(ca, b.color_at((q[0] + dx, q[1] + dy)))) <= tol for dx, dy in near):
                 skipped += 1
                 continue
-            near_a = [(i * delta_a / 3.0, j * delta_a / 3.0) for i in range(-3, 4) for j in range(-3, 4) if (i, j) != (0, 0)]
-            if any(max(abs(x - y) for x, y in zip(cb, a.color_at((p[0] + dx, p[1] + dy)))) <= tol for dx, dy in near_a):
+            nearA = [(i * ra / 3.0, j * ra / 3.0) for i in range(-3, 4) for j in range(-3, 4) if (i, j) != (0, 0)]
+            if any(max(abs(x - y) for x, y in zip(cb, a.color_at((p[0] + dx, p[1] + dy)))) <= tol for dx, dy in nearA):
                 skipped += 1
                 continue
         compared += 1
